@@ -24,6 +24,21 @@ CHECKS = {
     "C05": dict(engine="brokerlab", technique="Hypothesis model-based histories vs margin law and NLV decomposition at the named observation points",
                 text="Posted margins, cash + margins + fully-paid values = NLV, weights and context are recomputed independently at every observation point of generated histories.",
                 note=BASE_NOTE),
+    "C06": dict(engine="brokerlab", technique="Hypothesis-generated accrual schedules vs 50-digit decimal closed form; split-invariance and query twins (bitwise)",
+                text="Cash of either sign, rates, markups, intervals from 1 s to 50 years and arbitrary cut/query schedules are compared with a closed form in decimal arithmetic and with twin brokers.",
+                note=BASE_NOTE),
+    "C07": dict(engine="envlab", technique="Hypothesis-generated episodes; independent ledger replay of the recorded trades against the input quote stream; recomputed rewards; telescoping",
+                text="Every track-record entry of generated episodes is re-derived from the input stream by a timing model and a ledger; rewards and TrackRecord frames are recomputed.",
+                note=BASE_NOTE),
+    "C08": dict(engine="envlab", technique="Hypothesis-generated episodes with distinct actions and quotes at the latency boundary vs FIFO queue model and last-quote pricing model",
+                text="Executed allocations are matched to the decision submitted d steps earlier and every trade price to the last input quote stamped <= t+latency (integer microseconds).",
+                note=BASE_NOTE),
+    "C14": dict(engine="exchangelab", technique="Hypothesis model-based op histories (quote/discontinue/clock/query through object, clone, string and chain keys) vs dict model after every op",
+                text="The whole exchange is compared with a dict model after every operation of generated histories, through every key kind.",
+                note=BASE_NOTE),
+    "C16": dict(engine="metricslab", technique="Hypothesis-generated level series vs numpy-only reference definitions; scale metamorphic relation; single-defect corruption must be rejected",
+                text="Each listed metric is compared with a from-scratch reference on generated daily/irregular/intraday series and frames, is checked for scale invariance, and every single-defect corruption must raise.",
+                note=BASE_NOTE),
     "C12": dict(engine="brokerlab", technique="Hypothesis with dyadic (exact) boundary construction vs independent trade-set model; indifference band elsewhere",
                 text="make_trades is compared exactly with an independent trade-set model on inputs constructed on/around the threshold and lot boundaries.",
                 note=BASE_NOTE),
